@@ -53,12 +53,14 @@ var phases = []phaseDef{
 		blockingQueues(env, rep)
 		partialWakeups(env, rep)
 		orphanConsumers(env, rep)
+		timedGetAmongWaiters(env, rep)
 		containerArgProbes(env, rep)
 		readLockWriterStress(env, rep, c.facts)
 	}},
 	{"reentry-samekey", func(env *vh.Env, rep *vh.Report, c *phaseCtx) {
 		reentryUnderWriters(env, rep, c.facts)
 		sameKeyRaces(env, rep)
+		bulkAmongPointOps(env, rep, c.facts)
 	}},
 	{"panic-safety", func(env *vh.Env, rep *vh.Report, c *phaseCtx) { panicSafety(env, rep) }},
 	{"callbacks", func(env *vh.Env, rep *vh.Report, c *phaseCtx) { callbackReentrancy(env, rep) }},
